@@ -1232,6 +1232,9 @@ def construct_correspondence(case, impl, model):
             return f"message does not begin with the model's head {s['head']!r}: {impl.get('msg')!r}"
         if not c["shapeOk"]:
             return f"message shape differs from the model's {s['shape']}: {impl.get('msg')!r}"
+        if not c.get("problemOk", True):
+            return (f"the problem text is not an instance of typedpy's templates ('Expected …' / 'Does not match regular "
+                    f"expression: …') at the place the {s['shape']} shape puts it: {impl.get('msg')!r}")
     return None
 
 
